@@ -7,7 +7,7 @@
  D2 re-rooting preserves edge identities: nothing reachable from rootAt on the graph itself erases from the edge
     table, notifies deleted edges or allocates an edge id
 """
-from .facts import kids, strip, walk, is_call, render, AnalysisBroken
+from .facts import kids, strip, walk, is_call, render, local_inits, AnalysisBroken
 from . import e1, umbrella
 from .e6 import CacheInv
 
@@ -360,6 +360,46 @@ def _d3(chk, fb):
     chk.floor("D4", "uses of the id allocators", m, 4)
 
 
+def _d5(chk, fb):
+    """re-parenting: a tree/DAG member that removes one relation of a node and makes another (setFather: unlink(old, n) ...
+    link(new, n)) removes first.  GlobalGraph::link on a pair that is already related leaves the relation map as it is (the
+    insert finds the key), so 'link(new, n); unlink(old, n)' with new == old ends with no relation at all"""
+    n = 0
+    for f in fb.concrete_fns():
+        if f.body is None or not f.relfile.endswith(("Graph/TreeGraphImpl.h", "Graph/DAGraphImpl.h")):
+            continue
+        calls = [c for c in f.calls() if c["callee"]["name"] in ("link", "unlink") and len(f.args(c)) >= 2]
+        links = [c for c in calls if c["callee"]["name"] == "link"]
+        unl = [c for c in calls if c["callee"]["name"] == "unlink"]
+        if not links or not unl:
+            continue
+        li = local_inits(f)
+        cfg = f.cfg
+        for l in links:
+            for u in unl:
+                if render(f.args(l)[1], li) != render(f.args(u)[1], li):
+                    continue
+                n += 1
+                con = "unlink-before-link:%s" % render(f.args(l)[1])
+                a, b = render(f.args(l)[0]), render(f.args(u)[0])
+                later = e1.before_in_function(cfg, l, u)
+                earlier = e1.before_in_function(cfg, u, l)
+                if later and not earlier:
+                    cmp_ = [x for x in f.all_nodes() if x["k"] == "BinaryOperator" and x["op"] in ("==", "!=") and {render(kids(x)[0]), render(kids(x)[1])} == {a, b}]
+                    if cmp_:
+                        chk.unknown("D5", f.key, con, f.loc(u), "the new relation is made first, but '%s' and '%s' are compared: not decided" % (a, b))
+                    else:
+                        chk.refuted("D5", f.key, con, f.loc(u),
+                                    "%s makes the relation (%s, %s) before it removes (%s, %s): when both name the same pair, link leaves the already present relation as it is and the unlink that follows removes it - the node ends up without the relation it was given"
+                                    % (f.name, a, render(f.args(l)[1]), b, render(f.args(u)[1])),
+                                    witness={"history": "%s(n, f) called twice with the same f: after the second call n has no father and isValid() is false" % f.name})
+                elif earlier:
+                    chk.proved("D5", f.key, con, f.loc(u), "the old relation is removed before the new one is made")
+                else:
+                    chk.unknown("D5", f.key, con, f.loc(u), "link and unlink lie on different paths")
+    chk.floor("D5", "members that unlink and link the same node", n, 2)
+
+
 def run(chk, fb, tier):
     chk.rule("D1", "every dependency write of the cached validity predicate made by a public entry point (directly or in a callee) is followed by a reachable topologyHasChanged_(); "
                    "the derived invalidator overrides the base virtual and clears isValid_; isValid_ becomes true only from isTree()/isDA()")
@@ -369,6 +409,8 @@ def run(chk, fb, tier):
     _d1(chk, fb)
     _d2(chk, fb)
     _d3(chk, fb)
+    chk.rule("D5", "a tree/DAG member that both unlinks and links relations of one node (setFather) removes the old relation before making the new one")
+    _d5(chk, fb)
     if SKIPPED:
         chk.note("members of AssociationTreeGraphImplObserver not instantiable (latent compile errors in the header), skipped: %s" % SKIPPED)
     chk.assume("copy construction / assignment copy the flag together with the structure (implicit member-wise copy of TreeGraphImpl/DAGraphImpl)")
